@@ -114,6 +114,10 @@ def runRing (r : Report) (s : Section) : Report := Id.run do
       r := r.addCover (if rg.index > n then "ring-take-wrapped" else if rg.index = n then "ring-take-full" else "ring-take-partial")
       let m := joinSp (rg.take.map toString)
       let sp := joinSp ((Spec.lastN n hist.toList).map toString)
+      -- the harness keeps the slices earlier Takes returned: "keeps the last n elements" is about the moment of the
+      -- call, a later Add must not reach into a slice already handed out
+      if l.obs.contains "HELD-SLICE-CHANGED" then
+        r := r.violation s.idx l.idx s!"struct=ring op=[take] a slice returned by an earlier Take changed after later Adds (Take must return a fresh slice, not a view of the ring's buffer)"
       r := judge r s l m sp
     | _ => r := r.mismatch s.idx l.idx "bad-op" (joinSp l.op)
   return r
